@@ -142,3 +142,54 @@ func c01RootTip(w *core.WorkerCtx) {
 	}
 	w.R.Sample(5, map[string]any{"scenario": desc, "overdrawing_root_tip_still_in_the_ledger": live, "last_operations": tr})
 }
+
+// c01TruncationRace: a wallet X received 10 and spent 8 long ago; 1030 vertices later it spends 3 more in a tentative
+// tip (not built upon yet). A truncation starts from that tip while six clients propose: whichever proposal first
+// validates the tip - before, during or after the cut - must count the checkpointed part of X's history exactly once
+// and drop the tip.
+func c01TruncationRace(w *core.WorkerCtx) {
+	rng := core.Rand(w.Seed, "C01race")
+	desc := "c01 truncation race: X received 10 and spent 8 (both get checkpointed), tentative tip X spends 3, truncation racing with 24 proposals"
+	world := ledger.NewWorld(rng, w.R, []string{"C01"}, allSnapOracles, desc)
+	defer world.Close()
+	d, err := ledger.Setup(world, ledger.Profile{Nodes: 1, Users: 5, SupplyClass: 0, Delivery: "lockstep"})
+	if err != nil {
+		w.R.Inconc("truncation race setup failed: " + err.Error())
+		return
+	}
+	n := world.Nodes[0]
+	u := world.Users
+	f := world.NewTrx(u[0], u[4].Addr, spice.Melange{Currency: 10}, nil)
+	s1 := world.NewTrx(u[4], u[1].Addr, spice.Melange{Currency: 8}, nil)
+	if _, err := world.Propose(n, &f, "fund X with 10"); err != nil {
+		w.R.Inconc("truncation race: funding failed")
+		return
+	}
+	if _, err := world.Propose(n, &s1, "X spends 8"); err != nil {
+		w.R.Inconc("truncation race: first spend failed")
+		return
+	}
+	world.Quiet = true
+	for i := 0; i < 1030; i++ {
+		t := world.NewTrx(u[0], u[1+i%3].Addr, spice.Melange{SupplementaryCurrency: uint64(1 + i%9)}, nil)
+		world.Propose(n, &t, "grow")
+	}
+	world.Quiet = false
+	world.Observe(n, ledger.OpInfo{Kind: "milestone", OK: true})
+	s2 := world.NewTrx(u[4], u[2].Addr, spice.Melange{Currency: 3}, nil)
+	tv, err := world.Propose(n, &s2, "X spends 3 (tentative tip, not covered)")
+	if err != nil {
+		w.R.Inconc("truncation race: the tentative spend was refused: " + err.Error())
+		return
+	}
+	world.TruncateChecked(n, d, true)
+	for i := 0; i < 3; i++ {
+		t := world.NewTrx(u[0], u[2].Addr, spice.Melange{SupplementaryCurrency: uint64(3 + i)}, nil)
+		world.Propose(n, &t, "after the truncation")
+	}
+	_, live := n.Prev.Live[tv.Hash]
+	_, stored := n.Prev.Stored[s1.Hash]
+	world.EvalFor("C01", 1)
+	world.NontrivFor("C01", fmt.Sprintf("truncation-race/overdrawing-tip-still-live=%v/checkpoint=%v", live, len(n.Prev.Stored) > 0 || stored))
+	w.R.Count("c01_truncation_race_scenarios", 1)
+}
